@@ -36,6 +36,19 @@ Definition judge_C15_pda (P : pda) (limit : nat) (runs : list (word * option (op
      | Some None => if v then 33 else if tr then 1 else 0
      end) runs).
 
+(* the same with the verdict of the implementation's own acceptance test (same process, same limit) for every word: under a truncated
+   closure the implementation and the model may explore different configurations (C09 demands soundness only there), so "accepted"
+   is what the implementation's test says; the model's verdict is used where that test raised *)
+Definition judge_C15_pda2 (P : pda) (limit : nat) (runs : list (word * option (option (list (nat * word * list nat))))) (accs : list (option bool)) : nat :=
+  worst_code (check (pda_wf_b P) 9 :: map (fun xa => let '((w, o), ia) := xa in
+     let '(v, tr) := pda_accepts pick_head P limit w in
+     let eff := match ia with Some b => if tr then b else v | None => v end in
+     match o with
+     | None => if eff then 30 else if tr then 1 else 30
+     | Some (Some run) => check (pda_run_ok P w run) 31
+     | Some None => if eff then 33 else if tr then 1 else 0
+     end) (combine runs accs)).
+
 (* CNF grammar, non-empty words: mode 0 leftmost, 1 rightmost; o = None: raised *)
 Definition judge_C15_cfg (G : cfg) (runs : list (word * nat * option (list (list sym)))) : nat :=
   worst_code (check (cfg_wf_b G && is_chomsky_b G) 9 :: map (fun x => let '(w, mode, o) := x in
